@@ -8,20 +8,21 @@ OUT=/verif/seeded/$ID
 mkdir -p $OUT/demo
 cd $WT || exit 2
 export CARGO_NET_OFFLINE=true
+export CARGO_TARGET_DIR=$WT/target
 LOG=$OUT/confirm.log
 : > $LOG
 # split: library change = tracked modifications; demo = untracked files
 git diff > $OUT/patch.diff
-git ls-files --others --exclude-standard | grep -v '^target/' > /tmp/demo-files-$ID.txt
+git ls-files --others --exclude-standard | grep -v '^target/\|seed.patch\|\.log$' > /tmp/demo-files-$ID.txt
 while read f; do mkdir -p $OUT/demo/$(dirname $f); cp $f $OUT/demo/$f; done < /tmp/demo-files-$ID.txt
 echo "== demo WITH change" >> $LOG
 RUSTFLAGS="${CONFIRM_RUSTFLAGS:-}" cargo test --offline -j 8 -p $CRATE ${CONFIRM_FEATURES:-} --test $TEST >> $LOG 2>&1; W=$?
 echo "exit=$W" >> $LOG
-git stash -q
+git apply -R $OUT/patch.diff
 echo "== demo WITHOUT change" >> $LOG
 RUSTFLAGS="${CONFIRM_RUSTFLAGS:-}" cargo test --offline -j 8 -p $CRATE ${CONFIRM_FEATURES:-} --test $TEST >> $LOG 2>&1; WO=$?
 echo "exit=$WO" >> $LOG
-git stash pop -q
+git apply $OUT/patch.diff
 S=skipped
 if [ -n "$FULL" ]; then
   echo "== existing suite WITH change (demo file moved aside)" >> $LOG
